@@ -263,6 +263,13 @@ func c20(tier string, args []string) int {
 		}
 		r.Sample(map[string]interface{}{"n": nt.n, "t": nt.t, "scenarios": []string{"recorded", "adapted", "with junk", "reverse order"}})
 	}
+	// the operator enters the mnemonic twice when restoring the machines
+	if lastOM.Round != "" {
+		world.MnemonicEntries = 2
+		reinitAndCheck(r, lastOM, "recorded ceremony, machines restored with the mnemonic entered twice (set_seed run two times)", false, false)
+		world.MnemonicEntries = 1
+		scen++
+	}
 	// the repository's authentic 0.1.4 log
 	msgs, err := utils.ReadLogMessages("/repo/client/test_data/0_1_4_log.csv", ';', true, 4)
 	if err != nil {
